@@ -3,6 +3,7 @@ use std::sync::Arc;
 
 pub mod apivar;
 pub mod c01;
+pub mod exprapi;
 pub mod c02;
 pub mod c03;
 pub mod c04;
